@@ -98,6 +98,9 @@ class Harness:
         impl.setup_paths()
         for n in [n for n in sys.modules if n == "lsprotocol" or n.startswith("lsprotocol.")]:
             del sys.modules[n]          # not pristine (somebody imported and perhaps used it): import again
+        self.sched_ref = [None]
+        self.locks = []
+        S.install_lock_factory(os.path.join(impl.PY_PKG, "lsprotocol"), self.sched_ref, self.locks)
         import lsprotocol.types as lsp
         from lsprotocol import converters
         self.lsp, self.converters = lsp, converters
@@ -140,9 +143,7 @@ class Harness:
         else:
             self.names = [n for n in self.full if n != "__builtins__"]
         self._cache = {}
-        self.sched_ref = [None]
-        self.locks = []
-        # replace real locks of the package modules by cooperative ones
+        # (locks the package got from somewhere else than threading.Lock()/RLock() calls of its own code)
         for m in self.mods:
             for k, v in list(m.__dict__.items()):
                 if isinstance(v, S._LOCK_TYPES):
@@ -223,18 +224,22 @@ class Harness:
         self.sched_ref[0] = s
         s.run([self.body] * n)
         return {"points": [tuple(p) for p in s.points], "trace": list(s.trace), "results": s.results, "errors": s.errors,
-                "deadlock": s.deadlock, "n": n}
+                "deadlock": s.deadlock, "hang": s.hang, "n": n}
 
     def run_once(self, n, prefix):
         import types as _types
         st, r = _in_child(self._exec, n, list(prefix))
         if st != "ok":
-            r = {"points": [], "trace": [], "results": [None] * n, "errors": [("HarnessChild", str(r)[:160], None)] * n, "deadlock": False, "n": n}
+            r = {"points": [], "trace": [], "results": [None] * n, "errors": [("HarnessChild", str(r)[:160], None)] * n, "deadlock": False, "hang": False, "n": n}
         return _types.SimpleNamespace(**r)
 
 
+class _LostControl(Exception):
+    pass
+
+
 def _sched_worker(args):
-    mode, n, bound, wid, W = args
+    mode, n, bound, wid, W, cap = args
     h = Harness(mode)
     t0 = time.time()
     out = {"mode": mode, "n": n, "bound": bound, "executions": 0, "points_root": 0, "bad": {}, "outcomes": {}, "max_points": 0,
@@ -242,12 +247,21 @@ def _sched_worker(args):
     # determinism: the same schedule twice gives identical observations
     s1 = h.run_once(n, [])
     s2 = h.run_once(n, [])
+    if s1.hang or s2.hang:
+        out["lost_control"] = {"schedule": [], "after_points": len(s1.points)}
+        out["bad"] = []
+        return out
     if [p[:3] for p in s1.points] != [p[:3] for p in s2.points] or s1.results != s2.results or s1.errors != s2.errors:
         out["determinism"] = False
         return out
     out["points_root"] = len(s1.points)
 
     def on_exec(s, prefix):
+        if s.hang:
+            # the scheduler lost control: a thread blocks in a primitive SCHED does not own (an Event, a Condition,
+            # a lock created outside the package ...).  That is a limit of the harness, not a verdict on the code.
+            out["lost_control"] = {"schedule": list(s.trace), "after_points": len(s.points)}
+            raise _LostControl()
         out["executions"] += 1
         out["transitions"] += len(s.points)
         out["max_points"] = max(out["max_points"], len(s.points))
@@ -275,7 +289,16 @@ def _sched_worker(args):
         if key is not None:
             out["bad"][key]["count"] += 1
 
-    S.explore(n, bound, lambda p: h.run_once(n, p), on_exec, first_level_filter=(lambda i: i % W == wid))
+    out["completed_bound"] = -1
+    deadline = t0 + cap
+    try:
+        for b in range(0, bound + 1):
+            S.explore(n, b, lambda p: h.run_once(n, p), on_exec, first_level_filter=(lambda i: i % W == wid), deadline=deadline, exact=True)
+            out["completed_bound"] = b
+    except _LostControl:
+        pass
+    except S.Capped:
+        out["capped_after_s"] = cap
     out["wall"] = time.time() - t0
     out["bad"] = [(list(k), v) for k, v in out["bad"].items()]
     return out
@@ -419,12 +442,16 @@ def run(ctx):
     else:
         configs = [("reduced", 2, 2), ("reduced", 3, 1)]
     tasks = []
+    cap = int(os.environ.get("LSPVERIF_C19_CAP", "900" if ctx.thorough else "150"))     # wall clock per work slice
     for mode, n, bound in configs:
         for wid in range(W):
-            tasks.append((mode, n, bound, wid, W))
+            tasks.append((mode, n, bound, wid, W, cap))
     with mp.get_context("fork").Pool(W, maxtasksperchild=1) as pool:
         parts = pool.map(_sched_worker, tasks, chunksize=1)
     sched_cov = {}
+    lost = []
+    capped = []
+    capped_keys = {}
     total_exec = total_trans = 0
     audit = None
     for part in parts:
@@ -435,6 +462,12 @@ def run(ctx):
                               {"engine": "SCHED", "input": None}))
             continue
         # the root execution is run by every worker: count it once
+        c["completed_bound"] = min(c.get("completed_bound", part["bound"]), part.get("completed_bound", -1))
+        if part.get("capped_after_s"):
+            capped_keys[key] = part["capped_after_s"]
+        if part.get("lost_control"):
+            c["scheduler_lost_control"] = part["lost_control"]
+            lost.append(key)
         c["executions"] += part["executions"] - 1
         c["max_points"] = max(c["max_points"], part["max_points"])
         for oc, n in part["outcomes"].items():
@@ -447,6 +480,9 @@ def run(ctx):
             res.add(Violation(PROP, "schedule-" + kind, "get_converter", "concurrent first calls (%s): %s %s %s; deciding preemption at %s" % (key, kind, a, b, v["preempted_at"]),
                               {"engine": "SCHED", "schedule": v["schedule"], "threads": v["threads"], "registry": v["registry"], "errors": v["errors"], "input": None},
                               node=v["schedule"], extra="%s:%s" % (a, b)))
+    for key, secs in capped_keys.items():
+        cb = sched_cov[key]["completed_bound"]
+        capped.append("%s: wall-clock cap of %ds per work slice hit; every schedule with at most %d preemptions explored, bound %d partially" % (key, secs, cb, cb + 1))
     for key, c in sched_cov.items():
         c["executions"] += 1
         nok = c["outcomes"].get("ok", 0)
@@ -494,10 +530,16 @@ def run(ctx):
                 "each in a freshly forked process, plus F^100; after every event every converter is compared on the battery with the reference "
                 "(user-hooked converters with the hooked reference, incl. below union hooks)",
         "schedules": sched_cov, "histories": hist_stats, "converter_local_audit": audit,
-        "exhaustive": True,
+        "exhaustive": not lost and not capped,
         "samples": [{"schedule": [], "threads": 2, "meaning": "default schedule: thread 0 runs to completion, then thread 1"},
                     {"history": ["F", "Ud", "Hl"]}],
     }
+    if lost:
+        res.coverage["caps"] = ["SCHED lost control in %s: a thread blocked in a synchronisation primitive the scheduler does not own "
+                                "(it owns threading.Lock/RLock objects created by the package's own code); schedules of these configurations "
+                                "are NOT explored exhaustively" % sorted(set(lost))]
+    if capped:
+        res.coverage.setdefault("caps", []).extend(sorted(set(capped)))
     res.assumptions = ["library code (attrs, cattrs, typing) runs atomically with respect to thread switches",
                        "thread switches happen only at line boundaries of lsprotocol's own modules (CPython GIL build)"]
     return res
